@@ -46,6 +46,10 @@ mod handshake_schema {
     include!(concat!(env!("OUT_DIR"), "/noise.rs"));
 }
 
+#[cfg(litep2p_verif)]
+#[path = "../../verif/c19_noise.rs"]
+pub(crate) mod verif_c19;
+
 /// Noise parameters.
 const NOISE_PARAMETERS: &str = "Noise_XX_25519_ChaChaPoly_SHA256";
 
